@@ -102,6 +102,11 @@ Section CompositeOps.
   Variable unpackers : list (bytes * (fstate -> bytes -> fstate * ures Z)).
   Variable mode : cmode.
   Variable tags : list bytes.       (* orderedSpecFieldTags *)
+  Variable freshes : list (bytes * fstate).   (* CreateSubfield of every subfield of the spec *)
+
+  (* unpack() first unsets every subfield that was set: the object is re-created (unsetSubfield) *)
+  Definition reset_set (set : list bytes) (sts : list (bytes * fstate)) : list (bytes * fstate) :=
+    map (fun ts => if bmem (fst ts) set then match blookup (fst ts) freshes with Some f => (fst ts, f) | None => ts end else ts) sts.
 
   Definition sub_state (sts : list (bytes * fstate)) (tag : bytes) : option fstate := blookup tag sts.
 
@@ -239,9 +244,10 @@ Section CompositeOps.
         else unpack_bits f bm (i + 1) data off set sts
     end.
 
-  (* unpack(): the subfield set is reset first *)
-  Definition comp_unpack_body (sts : list (bytes * fstate)) (data : bytes) (isvar : bool)
+  (* unpack(): the subfields set before are discarded first *)
+  Definition comp_unpack_body (set0 : list bytes) (sts0 : list (bytes * fstate)) (data : bytes) (isvar : bool)
     : (list bytes * list (bytes * fstate)) * ures Z :=
+    let sts := reset_set set0 sts0 in
     match mode with
     | CBitmap b =>
         match bm_unpack b (bm_new b) data with
@@ -292,6 +298,8 @@ Fixpoint unpack_f (s : fspec) : fstate -> bytes -> fstate * ures Z :=
       let unpackers := (fix go (l : list (bytes * fspec)) : list (bytes * (fstate -> bytes -> fstate * ures Z)) :=
                           match l with [] => [] | (t, s') :: r => (t, unpack_f s') :: go r end) subs in
       let tags := ordered_tags mode subs in
+      let freshes := (fix go (l : list (bytes * fspec)) : list (bytes * fstate) :=
+                        match l with [] => [] | (t, s') :: r => (t, fresh s') :: go r end) subs in
       fun st data =>
         match st with
         | SComp set sts =>
@@ -300,7 +308,7 @@ Fixpoint unpack_f (s : fspec) : fstate -> bytes -> fstate * ures Z :=
                 if (dlen <? 0) || (zlen data - offset <? dlen) then (st, UErr [] (E "composite.not_enough_data")) else
                 let isvar := negb (offset =? 0) in
                 let body := ztake dlen (zdrop offset data) in
-                match comp_unpack_body unpackers mode tags sts body isvar with
+                match comp_unpack_body unpackers mode tags freshes set sts body isvar with
                 | ((set', sts'), UOk read) =>
                     if negb (dlen =? read) then (SComp set' sts', UErr [] (E "composite.length_mismatch"))
                     else (SComp set' sts', UOk (offset + read))
@@ -320,7 +328,9 @@ Definition comp_setbytes (s : fspec) (st : fstate) (data : bytes) : fstate * ure
   | FComp pref len mode subs, SComp set sts =>
       let unpackers := (fix go (l : list (bytes * fspec)) : list (bytes * (fstate -> bytes -> fstate * ures Z)) :=
                           match l with [] => [] | (t, s') :: r => (t, unpack_f s') :: go r end) subs in
-      match comp_unpack_body unpackers mode (ordered_tags mode subs) sts data false with
+      let freshes := (fix go (l : list (bytes * fspec)) : list (bytes * fstate) :=
+                        match l with [] => [] | (t, s') :: r => (t, fresh s') :: go r end) subs in
+      match comp_unpack_body unpackers mode (ordered_tags mode subs) freshes set sts data false with
       | ((set', sts'), r) => (SComp set' sts', r)
       end
   | _, _ => (st, UPanic (E "state does not match spec"))
